@@ -67,12 +67,25 @@ theorem vLt_trans (a b c : Value) (h1 : vLt a b = true) (h2 : vLt b c = true) : 
   · omega
   · exact strLt_trans _ _ _ h1 h2
   · exact natsLt_trans _ _ _ h1 h2
+  · rcases h1 with h1 | ⟨e1, h1⟩ <;> rcases h2 with h2 | ⟨e2, h2⟩
+    · left; omega
+    · left; omega
+    · left; omega
+    · right; exact ⟨by omega, strLt_trans _ _ _ h1 h2⟩
 
 theorem vLt_total (a b : Value) (h : a ≠ b) : vLt a b = true ∨ vLt b a = true := by
   cases a <;> cases b <;> simp [vLt] at h ⊢
   · omega
   · exact strLt_total _ _ h
   · exact natsLt_total _ _ h
+  · rename_i c1 s1 c2 s2
+    by_cases hc : c1 = c2
+    · rcases strLt_total s1 s2 (h hc) with h3 | h3
+      · exact Or.inl (Or.inr ⟨hc, h3⟩)
+      · exact Or.inr (Or.inr ⟨hc.symm, h3⟩)
+    · rcases Nat.lt_or_gt_of_ne hc with h3 | h3
+      · exact Or.inl (Or.inl h3)
+      · exact Or.inr (Or.inl h3)
 
 theorem vLt_asymm (a b : Value) (h : vLt a b = true) : vLt b a = false := by
   cases hb : vLt b a with
